@@ -213,7 +213,12 @@ func candidate(fr frame, class string, th, rho, k, j1, j2 float64, old *gobj) (l
 		if class == "cross" {
 			rho = 1.2 + 2*k // no path semantics there: simply somewhere outside
 		}
-		lat, lon = destination(fr.cy, fr.cx, math.Min(rho, 0.85+math.Max(0, rho-0.9))*fr.r, th*180/math.Pi)
+		if rho < 0.95 {
+			rho = math.Min(rho, 0.85)
+		} else {
+			rho = math.Max(rho, 1.15)
+		}
+		lat, lon = destination(fr.cy, fr.cx, rho*fr.r, th*180/math.Pi)
 		return round7(lat), round7(lon)
 	}
 	var u, v float64
@@ -354,11 +359,17 @@ func (g *generator) redefine() {
 	if variant == "match-case" && !hasLetter(old.Match) {
 		variant = "detect"
 	}
+	if g.edge && variant == "area" {
+		variant = "detect"
+	}
 	switch variant {
 	case "match-case":
 		ns.Match = swapCase(old.Match)
 	case "detect":
 		ns.Detect = detectSubset(intn(rt, "redef-detect", 0, 31))
+		if g.edge {
+			ns.Detect = detectSubset(pick(rt, "redef-edetect", []int{1, 4, 5, 8, 9, 12, 13}))
+		}
 	case "area":
 		fr := g.frames[i]
 		ok := false
@@ -485,6 +496,11 @@ func genCase(rt *rapid.T, detectIdx int, p genParams) Case {
 		if pct(rt, lb+"-det") >= 25 {
 			f.Detect = detectSubset(intn(rt, lb+"-mask", 1, 31))
 		}
+		if g.edge {
+			// no path semantics across the antimeridian: neither outside nor cross
+			f.Area.Hav = true
+			f.Detect = detectSubset(pick(rt, lb+"-emask", []int{1, 4, 5, 8, 9, 12, 13}))
+		}
 		if pct(rt, lb+"-commands") < 20 {
 			f.Commands = drawSubset(rt, lb+"-accept", []string{"set", "fset", "del", "drop"})
 		}
@@ -560,7 +576,7 @@ func genCase(rt *rapid.T, detectIdx int, p genParams) Case {
 			switch k := pct(rt, "objkind"); {
 			case k < 10:
 				s.Kind, s.Z = "pointz", float64(intn(rt, "z", 1, 500))
-			case k < 20:
+			case k < 20 && !g.edge:
 				s.Kind = "rect"
 			}
 			if rapid.Bool().Draw(rt, "with-f") {
@@ -1338,6 +1354,9 @@ func record(c *ev.Collector, cs Case, info caseInfo) {
 	}
 	if main.Where != nil {
 		c.Label("with-where")
+	}
+	if main.Area.Hav {
+		c.Label("disc-on-antimeridian-or-near-pole")
 	}
 	if main.Limit > 0 {
 		c.Label("with-limit(impl-mirrored:no-effect-on-a-fence)")
